@@ -56,7 +56,7 @@ def jobs(tier):
         for rx in (False, True):
             A(lambda tw=tw, rx=rx: L.mk_accum(tw, rx), max_states=3000 if quick else 200000)
         A(lambda tw=tw: L.mk_uart_tx(tw))
-        A(lambda tw=tw: L.UartRxInst(tw), heavy=True, max_states=(90000 if tw == 1 << 31 else 30000) if quick else 2000000)
+        A(lambda tw=tw: L.UartRxInst(tw), heavy=True, max_states=90000 if quick else 2000000)
     # ---- (4) SPI, mode A: every start phase relative to the divider, overlapping start pulses, all lengths
     for dw in (2, 3, 4):
         for al in (False, True):
@@ -66,7 +66,7 @@ def jobs(tier):
                 elif quick:
                     if (dw + div + al) % 2 or (dw == 4 and div > 3):
                         continue
-                    cap = 2500
+                    cap = 5000
                 else:
                     cap = 3000000
                 A(lambda dw=dw, al=al, div=div: L.SpiMasterInst(dw, al, spi_alphabet(dw, div), tag="/div%d" % div),
@@ -97,7 +97,8 @@ def jobs(tier):
     for k, tw in enumerate([0x0432_10ab, 0x1000_0000, 0x0199_9999, 0x0f0f_0f0f]):
         B(lambda tw=tw: L.mk_uart_tx(tw))
         B(lambda tw=tw, k=k: L.UartRxInst(tw, ((100 + (k % 3) - 1) if tw <= 0x1000_0000 else 100, 100)))
-    B(lambda: L.UartRxInst(0x0800_0000, noise=True), with_monitor=False)
+    B(lambda: L.UartRxInst(0x0800_0000, noise=True))
+    B(lambda: L.UartRxInst(0x2000_0000, noise=True))
     for dw, al, div in ((8, False, 2), (8, True, 5), (16, True, 3), (24, False, 4), (32, False, 16), (32, True, 7)) + \
             (() if quick else ((8, False, 3), (16, False, 100), (32, True, 2), (12, True, 6))):
         B(lambda dw=dw, al=al, div=div: L.SpiMasterInst(dw, al, divs=(div,), tag="/div%d" % div))
